@@ -124,7 +124,7 @@ def lean_act(a, cls, ci):
 
 
 def generate():
-    out = ["import EpyVerif.Props.C01", "import EpyVerif.Lemmas.Tables",
+    out = ["import EpyVerif.Props.C07", "import EpyVerif.Lemmas.Tables",
            "/-! GENERATED from /repo by harness/extract_tables.py on this run: registration tables and handler scripts of the shipped",
            "    models, with their decidable obligations. -/", "namespace Gen", "open Comp"]
     summary = dict(models=[], obligations=[], mismatches=[])
@@ -151,7 +151,11 @@ def generate():
         # C07: every compartment change a handler makes is an arrow of the diagram whose source is the compartment the
         # element's node has by virtue of the locus the event is registered on
         out.append(f"def arrows_{name} : List (Nat × Nat) := [{', '.join(f'({a}, {b})' for a, b in t['arrows'])}]")
-        summary['obligations'] += [f"one_{name}", f"shipped_{name}"]
+        first = {qn: next((ci[getattr(cls, a.split()[1])] for a in derived if a.startswith('CCL')), None) for (qn, derived, hand) in t['handlers']}
+        evs = ', '.join(f"({l}, {first[qn]})" for (l, qn) in t['events'] if first.get(qn) is not None)
+        out.append(f"theorem respects_{name} : C07.respects tab_{name}.kinds [{evs}] arrows_{name} = true := by decide")
+        out.append(f"theorem targets_{name} : handlers_{name}.all (fun acts => acts.all (C07.targetsB {len(ci)})) = true := by decide")
+        summary['obligations'] += [f"one_{name}", f"shipped_{name}", f"respects_{name}", f"targets_{name}"]
         summary['models'].append(dict(name=name, loci=len(t['kinds']), handlers=[q for q, _, _ in t['handlers']], linr=t['linr']))
     out.append("end Gen")
     return "\n".join(out) + "\n", summary
